@@ -80,6 +80,8 @@ Act(e) == LET a == e.args IN
      [] e.ev = "CopySwap"   -> CopyStep("CopySwap") /\ DumpMatches(e.orig, acc, val, wq, rec, rel) /\ (copyOk' <=> e.copy = e.orig)
      [] e.ev = "Flush"      -> Flush /\ DumpMatches(e.disk, acc, val, wq, rec, rel)
      [] e.ev = "GC"         -> GC
+     [] e.ev = "ResetStaking" -> ResetStaking
+     [] e.ev = "ReadRecord" -> ReadRecord(a.a, a.v)
      [] e.ev = "Restart"    -> Restart /\ DumpMatches(e.live, acc', val', wq', rec', rel')
      [] e.ev = "ReloadOld"  -> ReloadOld(a.d) /\ LET c == ch[Len(ch) - a.d + 1] IN DumpMatches(e.re, c[1], c[2], c[3], c[4], c[5])
      [] e.ev = "AddRecordOther" -> /\ AddRecordOther(a.a, a.v, a.h, a.d)
